@@ -71,6 +71,10 @@ CHECKS = {
    text="Explicit-state search on the *reclaim* grammar: 7 queue trees (flat / 2-level / 3-level; quotas 0/1/2, over-quota weights 1/2, queue priorities, a limit) x running workloads placing queues under / at / over quota and fair share x reclaimers (1 GPU, 2-GPU gang, fraction, non-preemptible) on 1-2 nodes, saturation multiplier 1 and 1.5, depth 2. A monitor plugin reads each queue's fair share inside the real session (cpu/memory through Session.QueueFairShare, GPUs through the exact queue_fair_share_gpu gauge); the oracle replays the decision log with allocations recomputed from pod specs and checks, per committed reclaim statement: no queue within its deserved quota (taken at the level where it diverges from the reclaimer) is net-reduced; the reclaiming queue stays within its fair share; a non-preemptible reclaimer stays within deserved quota at every level; the reclaimer's side of the diverging pair does not end above its fair share and at least as saturated as the queue it took from.",
    note="Trusted: as C01; the fair-share numbers themselves are the scheduler's (C09 judges them). Vacuity guard: >= 100 reclaim statements, >= 10 across departments, fair-share data present in every cycle.",
    technique="explicit-state model checking of the implementation (BFS over canonical cluster worlds, real scheduler cycle as transition relation, in-session probe for fair shares)"),
+ "C20": dict(engine="ctrlmc", cat="model_checking", ref="§5 C20",
+   text="Explicit-state search over histories on the REAL PodGroupReconciler, QueueReconciler and operator DeployableOperands.Deploy over controller-runtime fake clients. Part A: all histories (depth 5 quick / 6 thorough) of pod add / bind / phase change / delete, preemptibility flips of the group (priority class, explicit field) and reconciles, plus a full grid of 1-3 pods over phase x scheduled condition x nodeName x 7 request kinds x 9 preemptibility sources; Part B: 65 (121 thorough) queue forests up to 3 levels with histories of pod-group status changes, add/delete, re-parenting and reconciles in every order incl. parent before child; Part C: all 256 subsets of operator service switches x start states {empty, seeded, foreign objects, deployed(C1)} and C1->C2 changes. Oracle at every fixpoint: pod-group requested/allocated/allocatedNonPreemptible = reference sums over its pods by phase and CURRENT preemptibility; queue status = sums over pod groups and child queues at every level; one more reconcile changes no object; Deploy(C2) after Deploy(C1) equals Deploy(C2) from scratch and a repeated Deploy changes no object.",
+   note="Trusted: fake clients, reference sums on resource.Quantity, reduced schemes. Not covered: ConfigReconciler.Reconcile status conditions / SchedulingShard reconciler (need a manager). API writes that leave objects semantically unchanged are counted, not alarmed (the statement is about object contents).",
+   technique="explicit-state search over event/reconcile histories of the real controllers with reference-sum and differential fixpoint oracles"),
 }
 
 NOT_APPLICABLE = []
